@@ -368,8 +368,13 @@ class RuntimeState(utils.NiceRepr):
                 elif action == 'assign':
                     state[key] = value
                 elif action == 'set.add':
+                    if key not in state:
+                        # inline overlay: work on a copy of the persistent set
+                        state[key] = set(self._global_state[key])
                     state[key].add(value)
                 elif action == 'set.remove':
+                    if key not in state:
+                        state[key] = set(self._global_state[key])
                     try:
                         state[key].remove(value)
                     except KeyError:
